@@ -196,6 +196,20 @@ CHECKS = {
         "the real as_dict/as_text/from_text); hash(Tree) as a structural key (collisions assumed away). Literals with \\x/\\u or undefined "
         "escapes inside list blocks are outside (C12). The oracle is silent on stage.transform-x86/x64 and process-inject.transform-x64.",
         ref="§4 C11"),
+    "C13": dict(
+        text="For configuration families built by an independent encoder — http (two program variants; one transform argument of 0..2/3 "
+        "symbolic bytes over the full byte range at a time; symbolic printable User-Agent / header characters), process-inject (execute "
+        "lists over all 8 executors incl. offsets, transforms with symbolic bytes, permissions, allocators), stage (BeaconGate vectors with "
+        "3/5 symbolic flags), dns, empty — C2Profile.from_beacon_config raises nothing, its tree conforms to the grammar-table model, "
+        "every emitted literal is exactly one STRING token, the text produced by as_text's layout step re-tokenises to the tree's tokens, "
+        "and the dictionary computed by the interpreted as_dict states sleep time, jitter, User-Agent, URIs, verbs, static "
+        "headers/parameters, the http-get/http-post client steps with byte-exact arguments, the server-output step kinds and lengths, "
+        "and the process-inject / stage / DNS options; empty blocks are omitted. Known finding D14a (text value containing a backslash) "
+        "is excluded by its region and re-confirmed each run.",
+        note="Trusted: z3; symx; grammar-table model of lark (validated in C10/C11 and by native replays through the real "
+        "as_text/from_text); SHA-256 uninterpreted. The ORDER of server-output steps is not asserted either way (the configuration stores "
+        "a recover program).",
+        ref="§4 C13"),
 }
 
 NA = {}
